@@ -222,15 +222,37 @@ pub struct Stats {
     prepare: u64,
     changes: u64,
     non_ascii_edit: bool,
+    watch_events: u64,
 }
 
 pub fn run_history(a: &mut Lsp, b: &mut Lsp, s0: &str, changes: &[Vec<Change>], n: u64) -> Result<Stats, (String, String)> {
-    let uri = format!("file:///c14/doc{n}.st");
+    // a third of the documents also exist as files whose content is the text at open time (the last save); while the
+    // editor's buffer moves on, file-watcher notifications for the open document arrive between the changes, as they
+    // do after a save in a real editor - the open document's text is still the editor's
+    let on_disk = (s0.len() + changes.len()) % 3 == 0;
+    let dir = std::path::PathBuf::from(std::env::var("TPV_WORKDIR").unwrap_or_else(|_| "/tmp".into())).join(format!("c14-{}", std::process::id()));
+    let file = dir.join(format!("doc{n}.st"));
+    let uri = if on_disk {
+        let _ = std::fs::create_dir_all(&dir);
+        let _ = std::fs::write(&file, s0);
+        format!("file://{}", file.display())
+    } else {
+        format!("file:///c14/doc{n}.st")
+    };
+    struct Rm(Option<std::path::PathBuf>);
+    impl Drop for Rm {
+        fn drop(&mut self) {
+            if let Some(p) = &self.0 {
+                let _ = std::fs::remove_file(p);
+            }
+        }
+    }
+    let _rm = Rm(if on_disk { Some(file.clone()) } else { None });
     let h = |e: String| ("harness".to_string(), e);
     a.open(&uri, s0);
     let mut ed = Editor::new(s0);
     let mut version = 1;
-    let mut st = Stats { answers: 0, positions: 0, prepare: 0, changes: 0, non_ascii_edit: false };
+    let mut st = Stats { answers: 0, positions: 0, prepare: 0, changes: 0, non_ascii_edit: false, watch_events: 0 };
     for batch in changes {
         version += 1;
         let cc: Vec<J> = batch
@@ -258,6 +280,10 @@ pub fn run_history(a: &mut Lsp, b: &mut Lsp, s0: &str, changes: &[Vec<Change>], 
             st.changes += 1;
         }
         a.notify("textDocument/didChange", json!({"textDocument": {"uri": uri, "version": version}, "contentChanges": cc}));
+        if on_disk && version % 2 == 0 {
+            a.notify("workspace/didChangeWatchedFiles", json!({"changes": [{"uri": uri, "type": if version % 4 == 0 { 1 } else { 2 }}]}));
+            st.watch_events += 1;
+        }
     }
     b.open(&uri, &ed.text);
     let qa = queries(a, &uri, &ed).map_err(h)?;
@@ -416,6 +442,7 @@ pub fn run(sh: &mut Shard) {
                 sh.count("positions_validated_on_editor_text", st.positions);
                 sh.count("prepare_rename_round_trips", st.prepare);
                 sh.count("changes_applied", st.changes);
+                sh.count("watched_file_events_for_open_documents", st.watch_events);
                 sh.count("histories_ok", 1);
                 if st.non_ascii_edit {
                     sh.count("histories_editing_after_non_ascii", 1);
